@@ -2,6 +2,7 @@
    Only ExtrOcamlBasic is used: nat, positive, N, Z stay inductive datatypes. *)
 Require Extraction.
 Require Import ExtrOcamlBasic.
-From UP Require Import Base.Chars Model.Escape Spec.PctSpec.
+From UP Require Import Base.Chars Base.Regex Base.Atoms Model.Uri Model.Escape Spec.PctSpec Spec.Rfc3986 Model.Ip4 Model.Parse.
 Extraction Language OCaml.
-Extraction "model.ml" escape unescape unescape_inplace escaped_form crlf unescape_spec.
+Extraction "model.ml" escape unescape unescape_inplace escaped_form crlf unescape_spec
+  parse parse_cstr parse_ip4 matchb first_dead URI_reference is_empty deriv nullable crun ptrans pfinish all_atoms atom_rep atom_of.
